@@ -13,9 +13,16 @@ how a page gets decoded (header, CRC, decompression, encodings) belongs to other
 is abstracted to "loading page i yields this decoded page, or fails".  `current_page` (a byte
 offset in C) is the page index.
 
-The model is the code WITH the repairs F4 and F28 (fixes/F4-….patch, fixes/F28-….patch); the
-pinned behaviour is kept behind `Fixes` flags (`Fixes.preF4`, `Fixes.preF28`) so that the
-kernel-checked counterexamples and the harness replays refer to the same definitions.
+The model is the code WITH the repairs F4, F28 and F63 (fixes/F4-….patch, fixes/F28-….patch,
+fixes/F63-….patch); the pinned behaviour is kept behind `Fixes` flags (`Fixes.preF4`,
+`Fixes.preF28`, `Fixes.preF63`) so that the kernel-checked counterexamples and the harness replays
+refer to the same definitions.
+
+F63: a data page whose header says `num_values = 0` is legal.  The repaired loaders return right
+after the checksum test without touching the decoded buffers (`installEmpty`), and the "load a new
+page if needed" `if` of `carquet_read_next_page` is a `while` (`prepareLoop`): a page without rows
+is used up as soon as it is loaded, so the loop steps over it.  Before the repair the empty page
+went through the decoding path and `carquet_column_read_batch` left its loop at `values_read == 0`.
 
 Caller buffers are lists of slots (`none` = never written by the call) and every copy is a
 `bufWrite` at the offset the C code computes, so "which slot of the caller's array receives which
@@ -31,13 +38,15 @@ structure Fixes where
   f4 : Bool    -- dense value array indexed by the non-null count (page_reader.c, column_reader.c)
   f5 : Bool    -- batch reader zero-copy branch only when the page is exactly rows_to_read rows
   f28 : Bool   -- replaced page data buffers retired until the next call instead of freed
+  f63 : Bool   -- a data page without values is stepped over (page_reader.c: loaders + `while`)
 deriving DecidableEq, Repr
 
-def Fixes.all : Fixes := ⟨true, true, true⟩
-def Fixes.preF4 : Fixes := ⟨false, true, true⟩
-def Fixes.preF5 : Fixes := ⟨true, false, true⟩
-def Fixes.preF28 : Fixes := ⟨true, true, false⟩
-def Fixes.pinned : Fixes := ⟨false, false, false⟩
+def Fixes.all : Fixes := ⟨true, true, true, true⟩
+def Fixes.preF4 : Fixes := ⟨false, true, true, true⟩
+def Fixes.preF5 : Fixes := ⟨true, false, true, true⟩
+def Fixes.preF28 : Fixes := ⟨true, true, false, true⟩
+def Fixes.preF63 : Fixes := ⟨true, true, true, false⟩
+def Fixes.pinned : Fixes := ⟨false, false, false, false⟩
 
 inductive Err where
   | load   -- load_next_page returned a status ≠ OK (abstracted: CRC mismatch, decode error, …)
@@ -120,12 +129,21 @@ def installPage (fx : Fixes) (r : Reader α) (p : Page α) : Reader α :=
     decodedDefs := p.defs, decodedReps := p.reps, decodedVals := p.vals,
     ownershipView := r.chunk.view }
 
+/-- State after `load_next_page` has met a data page with `num_values == 0` (F63): the early return
+of both loaders plus `page_non_null_read = 0` of `carquet_read_next_page`.  The decoded buffers, the
+ownership flag and `page_data_for_values` keep what they hold. -/
+def installEmpty (r : Reader α) : Reader α :=
+  { r with pageLoaded := true, pageNumValues := 0, pageValuesRead := 0, pageNonNullRead := 0 }
+
 /-- `load_next_page`: the page at `current_page`, or failure.  A page whose header announces more
-values than the chunk has left is refused (`num_values > reader->values_remaining`, both load paths). -/
+values than the chunk has left is refused (`num_values > reader->values_remaining`, both load paths).
+A page without values is not decoded (F63; a loaded page has as many rows as its header says). -/
 def loadNextPage (fx : Fixes) (r : Reader α) : Except Err (Reader α) :=
   match r.chunk.pages[r.currentPage]? with
   | some (some p) =>
-    if (p.defs.length : Int) > r.valuesRemaining then .error .load else .ok (installPage fx r p)
+    if (p.defs.length : Int) > r.valuesRemaining then .error .load
+    else if fx.f63 = true ∧ p.defs.length = 0 then .ok (installEmpty r)
+    else .ok (installPage fx r p)
   | _ => .error .load
 
 /-- `if (reader->page_loaded) { current_page += header + compressed size; page_loaded = false; }` -/
@@ -135,14 +153,23 @@ def advance (r : Reader α) : Reader α :=
 /-- `!reader->page_loaded || reader->page_values_read >= reader->page_num_values` -/
 def needLoad (r : Reader α) : Bool := !r.pageLoaded || decide (r.pageValuesRead ≥ r.pageNumValues)
 
-/-- First half of `carquet_read_next_page`: make sure a page with unread rows is loaded.
-On failure the advance (and `page_loaded = false`) has already happened. -/
+/-- `while (!page_loaded || page_values_read >= page_num_values) { advance; load_next_page; }`
+(F63; the pinned code has `if` for `while`: one round).  Every round that continues has loaded the
+page at index `current_page` and the next round looks one index further, so the rounds are bounded
+by the number of pages (`Proofs.Cursor.prepareLoop_fuel`); running out of fuel is reported as a
+failing load.  On failure the advance (and `page_loaded = false`) has already happened. -/
+def prepareLoop (fx : Fixes) : Nat → Reader α → Reader α × Option Err
+  | 0, r => (r, some .load)
+  | fuel + 1, r =>
+    if needLoad r then
+      match loadNextPage fx (advance r) with
+      | .ok r' => if fx.f63 then prepareLoop fx fuel r' else (r', none)
+      | .error e => (advance r, some e)
+    else (r, none)
+
+/-- First half of `carquet_read_next_page`: make sure a page with unread rows is loaded. -/
 def preparePage (fx : Fixes) (r : Reader α) : Reader α × Option Err :=
-  if needLoad r then
-    match loadNextPage fx (advance r) with
-    | .ok r' => (r', none)
-    | .error e => (advance r, some e)
-  else (r, none)
+  prepareLoop fx (r.chunk.pages.length + 1) r
 
 /-! ### copying out of the decoded buffers -/
 
